@@ -63,6 +63,7 @@ type simAdapter struct {
 	// counters
 	FiredEnq, FiredDeq, FiredAck, FiredStall, Dups, Delays int
 	injected int // undecodable entries put into the backend by opInject
+	FiredAckLost int
 	lens     []lenObs
 	enqIDs   []string // job ids in the order the adapter stored them (parsed from the bytes)
 	deliveredBad []bool // per delivered corrupted entry: might it still decode?
@@ -264,6 +265,12 @@ func (a *simAdapter) Acknowledge(id string) bool {
 			a.acked = append(a.acked, id)
 			a.log("ack", u.E.Sub, id, true)
 			a.root.rec.adAckKnown(a, u, id)
+			if a.faultsOn && a.cfg.FAckLost > 0 && simrt.Chance(a.cfg.FAckLost) {
+				// the acknowledgement is applied, its answer is lost: the caller is told "refused"
+				a.FiredAck++
+				a.FiredAckLost++
+				return false
+			}
 			return true
 		}
 	}
